@@ -51,7 +51,8 @@ package config
 //@ at call fs.Open assert arg(name) == fileName0
 //@ at call ParseHCLFile assert [hcl-by-extension] strings.HasSuffix(lowerName, ".hcl") && arg(file) == file
 //@ at call ConvertHCLToAmmo assert [the-parsed-hcl-description] arg(ammo) == result_of(ParseHCLFile, 0) && result_of(ParseHCLFile, 1) == nil
-//@ at call ParseAmmoConfig assert [yaml-by-extension] !strings.HasSuffix(lowerName, ".hcl") && arg(file) == box(file)
+//@ at call ParseAmmoConfig assert [yaml-by-extension] !strings.HasSuffix(lowerName, ".hcl") && (strings.HasSuffix(lowerName, ".yaml") || strings.HasSuffix(lowerName, ".yml")) && arg(file) == box(file)
+//@ ensures [a-yaml-or-yml-file-is-read-as-yaml] imp(calls(file.Stat) == 1 && result_of(file.Stat, 1) == nil && !strings.HasSuffix(lowerName, ".hcl") && (strings.HasSuffix(lowerName, ".yaml") || strings.HasSuffix(lowerName, ".yml")), calls(ParseAmmoConfig) == 1)
 //@ ensures [hcl-parse-failure-is-an-error] imp(calls(ParseHCLFile) == 1 && result_of(ParseHCLFile, 1) != nil, err != nil && calls(ConvertHCLToAmmo) == 0)
 
 // ---------------------------------------------------------------- HCL front end (C16): the HCL description is decoded into the *HCL structs,
